@@ -127,15 +127,15 @@ func (p *PolicySet) UnmarshalJSON(b []byte) error {
 	if err := json.Unmarshal(b, &jsonPolicySet); err != nil {
 		return err
 	}
-	*p = PolicySet{
-		policies: make(PolicyMap, len(jsonPolicySet.StaticPolicies)),
-	}
+	// build the new contents aside: a document that cannot be decoded leaves the receiver as it was
+	policies := make(PolicyMap, len(jsonPolicySet.StaticPolicies))
 	for k, v := range jsonPolicySet.StaticPolicies {
 		if v == nil {
 			return fmt.Errorf("static policy %q is null", k)
 		}
-		p.policies[PolicyID(k)] = newPolicy((*ast.Policy)(v))
+		policies[PolicyID(k)] = newPolicy((*ast.Policy)(v))
 	}
+	*p = PolicySet{policies: policies}
 	return nil
 }
 
